@@ -230,8 +230,8 @@ pub proof fn thm_c11_energy(comps: Components, comps2: Components, w: Seq<Factor
         c > 0real, tags_same(comps.data@, comps2.data@), comps_wf(comps.data@), comps_wf(comps2.data@), vals_dom(comps.data@), vals_dom(comps2.data@),
         nsteps(comps2.data@) == nsteps(comps.data@),
         forall|i: int| 0 <= i < nsteps(comps.data@) ==> #[trigger] val_rel(comps.data@, comps2.data@, i, i, c),
-        ep_post(comps, w, k_exp, area, lm, r), ep_post(comps2, w, k_exp, area, lm, r2), r is Ok, r2 is Ok,
-    ensures ep_rel(r->Ok_0, r2->Ok_0, idx_ident(nsteps(comps.data@) as int), c, c),
+        ep_post(comps, w, k_exp, area, lm, r), ep_post(comps2, w, k_exp, area, lm, r2), r is Ok,
+    ensures r2 is Ok, ep_rel(r->Ok_0, r2->Ok_0, idx_ident(nsteps(comps.data@) as int), c, c),
 {
     let n = nsteps(comps.data@) as int;
     let idx = idx_ident(n);
@@ -239,6 +239,7 @@ pub proof fn thm_c11_energy(comps: Components, comps2: Components, w: Seq<Factor
     assert forall|i2: int| 0 <= i2 < idx.len() implies 0 <= #[trigger] idx[i2] < nsteps(comps.data@) && val_rel(comps.data@, comps2.data@, idx[i2], i2, c) by {
         assert(idx[i2] == i2); assert(val_rel(comps.data@, comps2.data@, i2, i2, c));
     }
+    thm_ok_agree(comps, comps2, w, k_exp, area, area, lm, r, r2, idx, c, c);
     thm_ep(comps, comps2, w, k_exp, area, area, lm, r, r2, idx, c, c);
 }
 /// C09 (permutation): the time steps of all components reordered by the same permutation
@@ -248,11 +249,12 @@ pub proof fn thm_c09_permutation(comps: Components, comps2: Components, w: Seq<F
         tags_same(comps.data@, comps2.data@), comps_wf(comps.data@), comps_wf(comps2.data@), vals_dom(comps.data@), vals_dom(comps2.data@),
         nsteps(comps2.data@) == nsteps(comps.data@), is_perm(idx, nsteps(comps.data@) as int),
         forall|i2: int| 0 <= i2 < nsteps(comps.data@) ==> val_rel(comps.data@, comps2.data@, #[trigger] idx[i2], i2, 1real),
-        ep_post(comps, w, k_exp, area, lm, r), ep_post(comps2, w, k_exp, area, lm, r2), r is Ok, r2 is Ok,
-    ensures ep_rel(r->Ok_0, r2->Ok_0, idx, 1real, 1real),
+        ep_post(comps, w, k_exp, area, lm, r), ep_post(comps2, w, k_exp, area, lm, r2), r is Ok,
+    ensures r2 is Ok, ep_rel(r->Ok_0, r2->Ok_0, idx, 1real, 1real),
 {
     let n = nsteps(comps.data@) as int;
     lemma_lay_perm(idx, n); lemma_lay_perm_r(idx, n);
+    thm_ok_agree(comps, comps2, w, k_exp, area, area, lm, r, r2, idx, 1real, 1real);
     thm_ep(comps, comps2, w, k_exp, area, area, lm, r, r2, idx, 1real, 1real);
 }
 /// C09 (subdivision): every step split into m equal sub-steps carrying 1/m of its energy
@@ -262,8 +264,8 @@ pub proof fn thm_c09_subdivision(comps: Components, comps2: Components, w: Seq<F
         m > 0, tags_same(comps.data@, comps2.data@), comps_wf(comps.data@), comps_wf(comps2.data@), vals_dom(comps.data@), vals_dom(comps2.data@),
         nsteps(comps2.data@) == nsteps(comps.data@) * m,
         forall|i2: int| 0 <= i2 < nsteps(comps2.data@) ==> #[trigger] val_rel(comps.data@, comps2.data@, i2 / m, i2, 1real / (m as real)),
-        ep_post(comps, w, k_exp, area, lm, r), ep_post(comps2, w, k_exp, area, lm, r2), r is Ok, r2 is Ok,
-    ensures ep_rel(r->Ok_0, r2->Ok_0, idx_subdiv(nsteps(comps.data@) as int, m), 1real / (m as real), 1real),
+        ep_post(comps, w, k_exp, area, lm, r), ep_post(comps2, w, k_exp, area, lm, r2), r is Ok,
+    ensures r2 is Ok, ep_rel(r->Ok_0, r2->Ok_0, idx_subdiv(nsteps(comps.data@) as int, m), 1real / (m as real), 1real),
 {
     let n = nsteps(comps.data@) as int;
     let idx = idx_subdiv(n, m);
@@ -276,14 +278,15 @@ pub proof fn thm_c09_subdivision(comps: Components, comps2: Components, w: Seq<F
         assert(0 <= i2 / m < n) by(nonlinear_arith) requires 0 <= i2 < n * m, m > 0;
         assert(val_rel(comps.data@, comps2.data@, i2 / m, i2, k));
     }
+    thm_ok_agree(comps, comps2, w, k_exp, area, area, lm, r, r2, idx, k, 1real);
     thm_ep(comps, comps2, w, k_exp, area, area, lm, r, r2, idx, k, 1real);
 }
 /// C10 (repeatability) / C04 (area): two evaluations of THE SAME component set - in any two hash orders, with any two reference areas - give
 /// the same per-carrier and whole-building figures and the same renewable ratios (in the real-number model)
 pub proof fn thm_c10_repeatable(comps: Components, w: Seq<Factor>, k_exp: f32, area: f32, area2: f32, lm: bool, r: Result<EnergyPerformance>, r2: Result<EnergyPerformance>)
     requires comps_wf(comps.data@), vals_dom(comps.data@),
-             ep_post(comps, w, k_exp, area, lm, r), ep_post(comps, w, k_exp, area2, lm, r2), r is Ok, r2 is Ok,
-    ensures ep_rel(r->Ok_0, r2->Ok_0, idx_ident(nsteps(comps.data@) as int), 1real, 1real),
+             ep_post(comps, w, k_exp, area, lm, r), ep_post(comps, w, k_exp, area2, lm, r2), r is Ok, !(rv(area2) < 1real / 1000real),
+    ensures r2 is Ok, ep_rel(r->Ok_0, r2->Ok_0, idx_ident(nsteps(comps.data@) as int), 1real, 1real),
 {
     let cs = comps.data@;
     let n = nsteps(cs) as int;
@@ -296,6 +299,7 @@ pub proof fn thm_c10_repeatable(comps: Components, w: Seq<Factor>, k_exp: f32, a
             assert(1real * rv(e_vals(cs[j])[i2]) == rv(e_vals(cs[j])[i2])) by(nonlinear_arith);
         }
     }
+    thm_ok_agree(comps, comps, w, k_exp, area, area2, lm, r, r2, idx, 1real, 1real);
     thm_ep(comps, comps, w, k_exp, area, area2, lm, r, r2, idx, 1real, 1real);
 }
 
@@ -393,8 +397,8 @@ pub proof fn lemma_m2_r3(kx: real, ky: real, ct: real, v: R3, v2: R3, q: real)
 /// every per-m2 figure divided by c
 pub proof fn thm_c11_area(comps: Components, w: Seq<Factor>, k_exp: f32, area: f32, area2: f32, lm: bool, r: Result<EnergyPerformance>, r2: Result<EnergyPerformance>, c: real)
     requires comps_wf(comps.data@), vals_dom(comps.data@), c > 0real, rv(area) > 0real, rv(area2) == c * rv(area),
-             ep_post(comps, w, k_exp, area, lm, r), ep_post(comps, w, k_exp, area2, lm, r2), r is Ok, r2 is Ok,
-    ensures ep_rel(r->Ok_0, r2->Ok_0, idx_ident(nsteps(comps.data@) as int), 1real, 1real),
+             ep_post(comps, w, k_exp, area, lm, r), ep_post(comps, w, k_exp, area2, lm, r2), r is Ok, !(rv(area2) < 1real / 1000real),
+    ensures r2 is Ok, ep_rel(r->Ok_0, r2->Ok_0, idx_ident(nsteps(comps.data@) as int), 1real, 1real),
             bal_rel(r->Ok_0.balance_m2, r2->Ok_0.balance_m2, 1real / c),
 {
     thm_c10_repeatable(comps, w, k_exp, area, area2, lm, r, r2);
@@ -402,4 +406,98 @@ pub proof fn thm_c11_area(comps: Components, w: Seq<Factor>, k_exp: f32, area: f
     lemma_pos_mul(c, rv(area));
     assert((1real * ky) / kx == 1real / c) by(nonlinear_arith) requires kx == 1real / rv(area), ky == 1real / (c * rv(area)), c > 0real, rv(area) > 0real;
     thm_m2(r->Ok_0.balance, r2->Ok_0.balance, area, area2, r->Ok_0.balance_m2, r2->Ok_0.balance_m2, 1real, 1real / c);
+}
+
+// ------------------------------------------------------------------------------------------------ success of the second evaluation
+pub proof fn lemma_cgn_ok_same(w: Seq<Factor>, cs: Seq<Energy>, cs2: Seq<Energy>)
+    requires sel_same(cs, cs2), (nsteps(cs2) > 0) == (nsteps(cs) > 0),
+    ensures cgn_ok(w, cs2) == cgn_ok(w, cs),
+{
+    assert(any_sel(cs2, Sel::Prod(ProdSource::EL_COGEN)) == any_sel(cs, Sel::Prod(ProdSource::EL_COGEN)));
+    assert(has_cgn_prod(cs2) == has_cgn_prod(cs));
+    assert(any_cgn_use(cs2) == any_cgn_use(cs)) by {
+        if any_cgn_use(cs) { let fuel = choose|fuel: Carrier| any_sel(cs, Sel::CgnFuel(fuel)); assert(any_sel(cs2, Sel::CgnFuel(fuel)) == any_sel(cs, Sel::CgnFuel(fuel))); }
+        if any_cgn_use(cs2) { let fuel = choose|fuel: Carrier| any_sel(cs2, Sel::CgnFuel(fuel)); assert(any_sel(cs2, Sel::CgnFuel(fuel)) == any_sel(cs, Sel::CgnFuel(fuel))); }
+    }
+    assert(cgn_factors_ok(w, cs2, false) == cgn_factors_ok(w, cs, false)) by {
+        assert forall|fuel: Carrier| cgn_uses(cs2, false, fuel) == cgn_uses(cs, false, fuel) by { assert(any_sel(cs2, Sel::CgnFuel(fuel)) == any_sel(cs, Sel::CgnFuel(fuel))); }
+        if cgn_factors_ok(w, cs, false) { assert forall|fuel: Carrier| cgn_uses(cs2, false, fuel) implies #[trigger] has_fp(w, fuel, Source::RED, Dest::SUMINISTRO, Step::A) by { assert(cgn_uses(cs, false, fuel)); } }
+        if cgn_factors_ok(w, cs2, false) { assert forall|fuel: Carrier| cgn_uses(cs, false, fuel) implies #[trigger] has_fp(w, fuel, Source::RED, Dest::SUMINISTRO, Step::A) by { assert(cgn_uses(cs2, false, fuel)); } }
+    }
+}
+/// the weighting step of carrier c needs the same factors in two evaluations whose inputs are related through a layout (whatever
+/// tuples of flows the two evaluations computed)
+pub proof fn lemma_ok_carrier(comps: Components, comps2: Components, lm: bool, idx: Seq<int>, k: real, ct: real, c: Carrier, w: Seq<Factor>, w2: Seq<Factor>, a: Run, b: Run)
+    requires
+        k > 0real, ct > 0real, inputs_rel(comps.data@, comps2.data@, idx, k), lay_sums(idx, nsteps(comps.data@) as int, k, ct),
+        in_avail(comps.data@, c), run_ok(a, lm), a.cs == filter_carrier(comps.data@, c), run_ok(b, lm), b.cs == filter_carrier(comps2.data@, c),
+        we_lookups_same(w, w2, c, a.exp, a.del),
+    ensures we_factors_ok(w2, c, b.exp, b.del) == we_factors_ok(w, c, a.exp, a.del),
+{
+    let cs = comps.data@; let cs2 = comps2.data@;
+    let n = nsteps(cs); let n2 = nsteps(cs2);
+    lemma_avail_tags(cs, cs2, c);
+    lemma_filter_carrier(cs, c, n); lemma_filter_carrier(cs2, c, n2);
+    lemma_filter_rel(cs, cs2, c);
+    lemma_sel_same(a.cs, b.cs);
+    lemma_vals_dom_filter(cs, c); lemma_vals_dom_filter(cs2, c);
+    assert(e_has_carrier(a.cs[0], c) && e_has_carrier(b.cs[0], c));
+    assert(run_n(a) == n && run_n(b) == n2) by { assert(e_vals(a.cs[0]).len() == n && e_vals(b.cs[0]).len() == n2); }
+    assert forall|i2: int| 0 <= i2 < idx.len() implies 0 <= #[trigger] idx[i2] < run_n(a) && acc_rel(a.cs, b.cs, idx[i2], i2, k)
+            && in_dom(rv(a.prod.t@[idx[i2]])) && in_dom(rv(b.prod.t@[i2])) by {
+        assert(val_rel(cs, cs2, idx[i2], i2, k));
+        lemma_filter_val(cs, cs2, c, idx[i2], i2, k);
+        lemma_acc_rel(a.cs, b.cs, idx[i2], i2, k);
+        lemma_prod_in_dom(a, lm, idx[i2]);
+        lemma_prod_in_dom(b, lm, i2);
+    }
+    assert(carrier_hyp(a, b, lm, idx, k));
+    lemma_step_doms(a, b, lm);
+    assert forall|i2: int| 0 <= i2 < idx.len() implies 0 <= #[trigger] idx[i2] < run_n(a) && step_rel_r(a, b, idx[i2], i2, k) by { thm_step(a, b, lm, idx[i2], i2, k); }
+    thm_annual(a, b, lm, idx, k, ct);
+    lemma_we_inputs(a, b, ct);
+    lemma_we_ok_same(w, w2, c, a, b, ct);
+}
+/// THE SECOND EVALUATION SUCCEEDS WHEN THE FIRST DOES: under the hypotheses of thm_ep (without assuming anything about r2) and a
+/// reference area that energy_performance accepts
+pub proof fn thm_ok_agree(comps: Components, comps2: Components, w: Seq<Factor>, k_exp: f32, area: f32, area2: f32, lm: bool,
+                          r: Result<EnergyPerformance>, r2: Result<EnergyPerformance>, idx: Seq<int>, k: real, ct: real)
+    requires
+        k > 0real, ct > 0real, inputs_rel(comps.data@, comps2.data@, idx, k),
+        lay_sums(idx, nsteps(comps.data@) as int, k, ct), lay_sums_r(idx, nsteps(comps.data@) as int, k, ct),
+        ep_post(comps, w, k_exp, area, lm, r), ep_post(comps2, w, k_exp, area2, lm, r2), r is Ok, !(rv(area2) < 1real / 1000real),
+    ensures r2 is Ok,
+{
+    if r2 is Err {
+        let cs = comps.data@; let cs2 = comps2.data@;
+        let x = r->Ok_0;
+        lemma_sel_same(cs, cs2);
+        lemma_cgn_ok_same(w, cs, cs2);
+        assert(cgn_ok(w, cs2));
+        // so some carrier of the second building lacks a factor, for some tuple of flows that the contracts allow
+        let (c, wf2, used, prod, fm, exp, del) = choose|c: Carrier, wf: Seq<Factor>, used: UsedEnergy, prod: ProducedEnergy, fm: Seq<f32>, exp: ExportedEnergy, del: DeliveredEnergy|
+            in_avail(cs2, c) && #[trigger] cgn_added(w, wf, cs2) && #[trigger] flows_ok(cs2, c, lm, used, prod, fm, exp, del) && !we_factors_ok(wf, c, exp, del);
+        lemma_avail_tags(cs, cs2, c);
+        assert(x.balance_cr@.contains_key(c));
+        let bx = x.balance_cr@[c];
+        assert(bfc_post(cs, x.wfactors.wdata@, c, rv(k_exp), lm, bx));
+        reveal(bfc_post);
+        let a = Run { cs: filter_carrier(cs, c), used: bx.used, prod: bx.prod, fm: bx.f_match@, exp: bx.exp, del: bx.del };
+        let b = Run { cs: filter_carrier(cs2, c), used: used, prod: prod, fm: fm, exp: exp, del: del };
+        lemma_filter_carrier(cs, c, nsteps(cs)); lemma_filter_carrier(cs2, c, nsteps(cs2));
+        // the two factor sets (with the derived cogeneration factors) read the same
+        let n = nsteps(cs); let n2 = nsteps(cs2);
+        assert forall|i2: int| 0 <= i2 < idx.len() implies 0 <= #[trigger] idx[i2] < n && acc_rel(cs, cs2, idx[i2], i2, k) by {
+            assert(val_rel(cs, cs2, idx[i2], i2, k));
+            lemma_acc_rel(cs, cs2, idx[i2], i2, k);
+        }
+        assert forall|s: Sel| #[trigger] acc_an(cs2, s, n2 as int) == ct * acc_an(cs, s, n as int) by { lemma_acc_an_rel(cs, cs2, s, idx, n as int, k, ct); }
+        lemma_cgn_added_same(w, x.wfactors.wdata@, wf2, cs, cs2, ct, c);
+        lemma_fp_same_lookups(x.wfactors.wdata@, wf2, c, a.exp, a.del);
+        lemma_ok_carrier(comps, comps2, lm, idx, k, ct, c, x.wfactors.wdata@, wf2, a, b);
+        // the first evaluation did find every factor
+        assert(cwe_post(x.wfactors.wdata@, c, rv(k_exp), bx.used, bx.exp, bx.del, Ok(bx.we)));
+        assert(we_factors_ok(x.wfactors.wdata@, c, a.exp, a.del));
+        assert(false);
+    }
 }
